@@ -155,7 +155,7 @@ fn bitvec_case(c: &mut Case, ctor: &str, lens: &[usize]) {
     c.describe(|| format!("ctor={} lens={:?}", ctor, shown));
 }
 
-const BFV_CTORS: &[&str] = &["new", "new_unaligned", "push", "with_capacity+push", "resize-grow", "extend", "extend-batches", "from_slice", "macro"];
+const BFV_CTORS: &[&str] = &["new", "new_unaligned", "push", "with_capacity+push", "resize-grow", "extend", "extend-batches", "from_slice", "macro", "rejected-ops"];
 
 macro_rules! bfv_size {
     ($c:ident, $W:ty, $wname:expr, $ctor:expr, $pairs:expr) => {{
@@ -214,6 +214,24 @@ macro_rules! bfv_size {
                             }
                             k += 1;
                         }
+                        (heap(&v), None, 0)
+                    }
+                    "rejected-ops" => {
+                        // operations rejected by a panic (a value that does not fit, an index out of
+                        // range) leave the vector as it was: its size too
+                        let mut v = BitFieldVec::<$W>::new(width, len);
+                        if width < bits {
+                            let big: $W = <$W>::MAX;
+                            let _ = catch(|| v.resize(len + 1_000_000, big));
+                            let _ = catch(|| v.push(big));
+                            let _ = catch(|| v.extend([big, big, big]));
+                            if len > 0 {
+                                let _ = catch(|| v.set(0, big));
+                            }
+                        }
+                        let _ = catch(|| v.set(len + 1_000_000, 0));
+                        let _ = catch(|| sux::traits::BitFieldSlice::<$W>::get(&v, len + 1_000_000));
+                        assert_eq!(sux::traits::BitFieldSliceCore::<$W>::len(&v), len, "harness: a rejected operation changed the length");
                         (heap(&v), None, 0)
                     }
                     "from_slice" => {
